@@ -3,7 +3,6 @@ package main
 import (
 	"fmt"
 	"math/rand"
-	"strconv"
 	"strings"
 	"time"
 
@@ -68,14 +67,7 @@ func allowedAfterAbort(c scase, events []string) string {
 			sends = append(sends, "m"+op[1:])
 		}
 	}
-	f := parseFin(c.Fin)
-	finEv := "F0:"
-	switch f.Kind {
-	case 'E':
-		finEv = "F" + strconv.Itoa(f.Code) + ":" + f.Msg
-	case 'P':
-		finEv = "F2:" + f.Msg
-	}
+	finEv := parseFin(c.Fin).finEvent()
 	got := 0
 	after := false
 	for _, e := range events {
@@ -145,8 +137,8 @@ func runAsync(f lib.Flags, res *lib.Result, w *world, drv *lib.Driver, pool []sc
 			tie.Count("filtered:prefix-not-rendezvous")
 			continue
 		}
-		ow := runCase(w.wrapCC, w.srv, c, true)
-		og := runCase(w.grpcCC, w.srv, c, false)
+		ow := runCase(w.wrapEP, w.srv, c, true)
+		og := runCase(w.grpcEP, w.srv, c, false)
 		got := strings.Join(ow.client, ",")
 		member := ""
 		for _, t := range strings.Split(sets[i], ";") {
@@ -193,8 +185,8 @@ func runAsync(f lib.Flags, res *lib.Result, w *world, drv *lib.Driver, pool []sc
 // no trailers then; the wrapper hands out what the handler has staged so far. Recorded finding.
 func runTrailerAfterAbort(w *world, mon *lib.Monitor) {
 	c := scase{Shape: "bidi", Out: "-", Srv: "Ta=1,R", Fin: "OK", Cli: "x,r,t"}
-	ow := runCase(w.wrapCC, w.srv, c, false)
-	og := runCase(w.grpcCC, w.srv, c, false)
+	ow := runCase(w.wrapEP, w.srv, c, false)
+	og := runCase(w.grpcEP, w.srv, c, false)
 	mon.Eval("trailer-after-abort", true, map[string]any{"case": c, "wrapper": ow.text(), "grpc": og.text()})
 	if og.timedOut {
 		return
@@ -206,8 +198,8 @@ func runTrailerAfterAbort(w *world, mon *lib.Monitor) {
 
 func runResponseThenError(w *world, mon *lib.Monitor) {
 	c := scase{Shape: "cstream", Out: "-", Srv: "R,R,M7", Fin: "E9:e0", Cli: "s1,c,r,r"}
-	ow := runCase(w.wrapCC, w.srv, c, false)
-	og := runCase(w.grpcCC, w.srv, c, false)
+	ow := runCase(w.wrapEP, w.srv, c, false)
+	og := runCase(w.grpcEP, w.srv, c, false)
 	mon.Eval("response-then-error", true, map[string]any{"case": c, "wrapper": ow.text(), "grpc": og.text()})
 	if og.timedOut {
 		return
